@@ -85,7 +85,9 @@ class BuckGophermapHandler(BaseHandler):
                     if entry.gethost() is None and entry.getport() is None:
                         # If we're using links on THIS server, try to fill
                         # it in for gopher+.
-                        if self.vfs.exists(selector):
+                        # (URL: selectors are not paths: root + "URL:..." would
+                        # name a sibling of the document root.)
+                        if selector[0] == "/" and self.vfs.exists(selector):
                             entry.populatefromvfs(self.vfs, selector)
                     self.entries.append(entry)
                 else:  # Info line
